@@ -21,7 +21,7 @@ RULE = ("C: random call sets x random sample lists (subset, listing order, 1-4 l
         "stdout. L1: 2-9 labels drawn from 1-2 character names, shape and axis assignment probed with one record. Non-trivial: >=2 populations "
         "of unequal size or order-sensitive counts; distinct = digest(codes, list).")
 ASSUMPTIONS = ["sample names avoid the list syntax characters ',', '=' and tab", "integer counts: exact comparison"]
-FLOORS = {"quick": {"evaluations": 2500, "distinct_nontrivial": 400, "counts": {"C_base": 250, "C_twin_runs": 1000, "L1_maps": 2000}},
+FLOORS = {"quick": {"evaluations": 2500, "distinct_nontrivial": 400, "counts": {"C_base": 250, "C_twin_runs": 1000, "L1_maps": 2000, "C_huge_cohort_runs": 2}},
           "thorough": {"evaluations": 60000, "distinct_nontrivial": 10000, "counts": {"C_base": 8000, "C_twin_runs": 30000, "L1_maps": 50000}}}
 NSHARD = 32
 
@@ -31,7 +31,7 @@ def plan(tier, seed):
     return [{"name": "s%d" % i, "i": i, "c": 10 if q else 1200, "l1": 90 if q else 8000} for i in range(NSHARD)]
 
 
-LABELS = ["A", "B", "popC", "D_4", "e", "YRI", "CEU", "x.y", "P-1", "pop A", "pop B", "a b c", "Z "]
+LABELS = ["A", "B", "popC", "D_4", "e", "YRI", "CEU", "x.y", "P-1", "pop A", "pop B", "a b c", "Z ", "K=2", "K=3", "a=b=c"]
 
 
 def gen_map(rng, samples):
@@ -352,10 +352,49 @@ def check_L1(S, p):
         S.case(key=digest(E.map_json(smap)), nontrivial=len(set(shape)) > 1 or len(set(want_idx)) > 1)
 
 
+def check_C_huge_cohort(S, p):
+    """Tens of thousands of listed samples (a biobank-sized list: the samples file is well over 1 MiB); the last lines of the file
+    introduce a second, small population. Axis lengths 2n+1, the two records land in the cells given by their ALT counts."""
+    rng = rng_for(S.seed, "c09", p["name"], "huge")
+    na, nb = rng.choice([66000, 70000, 65536]), rng.randint(2, 6)
+    names = ["sample_%06d_%s" % (k, "abcdefgh"[k % 8] * 6) for k in range(na + nb)]
+    order = list(range(na + nb))
+    rng.shuffle(order)                                  # header column order differs from list order
+    alt_a = sorted(rng.sample(range(na), 5))
+    alt_b = rng.randrange(na, na + nb)
+    def col(k, rec):
+        if rec == 0:
+            return "0/1" if k in alt_a else "0/0"
+        return "1|1" if (k == alt_b or k == alt_a[0]) else "0|0"
+    head = "##fileformat=VCFv4.3\n##contig=<ID=c1,length=1000>\n##FORMAT=<ID=GT,Number=1,Type=String,Description=\"g\">\n"
+    head += "#CHROM\tPOS\tID\tREF\tALT\tQUAL\tFILTER\tINFO\tFORMAT\t" + "\t".join(names[k] for k in order) + "\n"
+    recs = "".join("c1\t%d\t.\tA\tC\t.\t.\t.\tGT\t%s\n" % (7 + rec, "\t".join(col(k, rec) for k in order)) for rec in (0, 1))
+    vcf = (head + recs).encode()
+    listing = "".join("%s\t%s\n" % (names[k], "big" if k < na else "small") for k in range(na + nb)).encode()
+    f = E.tmpfile(listing, ".samples")
+    r = cli.sfs(["create", "-S", f], stdin=vcf, timeout=300)
+    S.count("C_huge_cohort_runs")
+    S.observe("samples_file_bytes", len(listing))
+    shape = [2 * na + 1, 2 * nb + 1]
+    want = {(5, 0): 1, (2, 2): 1}
+    ps = E.parse_text_spectrum(r.out) if r.rc == 0 else None
+    wit = {"level": "C", "argv": r.argv, "samples": na + nb, "samples_file_bytes": len(listing), "rc": r.rc, "stderr": r.err[:300].decode("latin1"), "stdout_head": r.out[:60].decode("latin1")}
+    if ps is None or ps[0] != shape:
+        S.viol("C09:huge-cohort", "[C %d + %d listed samples, samples file of %d bytes] rc %s, shape %r, expected %r; stderr %r" % (
+            na, nb, len(listing), r.rc, ps[0] if ps else None, shape, r.err[:200]), wit)
+    else:
+        nz = {(j // shape[1], j % shape[1]): int(float(t)) for j, t in enumerate(ps[1]) if t != "0"}
+        if nz != want:
+            S.viol("C09:huge-cohort", "[C %d + %d listed samples] non-zero cells %r, expected %r" % (na, nb, sorted(nz.items())[:6], sorted(want.items())), wit)
+    S.case(key=digest(["huge", na, nb, S.seed]), nontrivial=True)
+
+
 def shard(S, p):
     if "replay" in p:
         S.inconc("witness carries argv + input for manual replay")
         return
+    if p["i"] % 16 == 3:
+        check_C_huge_cohort(S, p)
     check_L1(S, p)
     check_C(S, p)
     check_C_odd_names(S, p)
